@@ -27,14 +27,23 @@ Definition quorum (p : params) (st : state) (pr : nat) : Prop :=
 (** exact expiry, without machine arithmetic *)
 Definition expired_at (p : params) (r : rate_entry) (h : Z) : Prop := r_created r + p_expiration p <= h.
 
-(** the part of the input space in which the code does not overflow (outside it the implementation
-    panics or wraps; see README "outside the domain") *)
-Definition SAFE_RATE : Z := 2 ^ 255 * PREC.
+(** What the quantifier of the property ranges over, as a boolean:
+    - [params_valid]: Params.Validate (VotePeriod > 0, 0.33 < VoteThreshold <= 1 (upper bound: commit 662a06f,
+      which also validates edited params), MinVoters > 0, RewardBand in [0,1]); ExpirationBlocks is a uint64;
+    - [bonded_ok]: total bonded tokens >= 0, power reduction > 0, bonded power fits int64;
+    - [rates_in_range]: every submitted rate is a LegacyDec (|raw| <= 2^256*10^18 - 1, enforced by its codec).
+    After the fixes 48f939b / 662a06f / 66a0ce3 nothing else is needed: no bound on rates, no
+    created + ExpirationBlocks < 2^64 condition. *)
+Definition THR_MIN : Z := 330000000000000000.
+Definition params_valid (p : params) : bool :=
+  (0 <? p_vote_period p) && (THR_MIN <? p_threshold p) && (p_threshold p <=? PREC) &&
+  (0 <? p_min_voters p) && (0 <=? p_reward_band p) && (p_reward_band p <=? PREC) && (0 <=? p_expiration p).
+Definition bonded_ok (st : state) : bool :=
+  (0 <=? bonded_tokens st) && (0 <? power_reduction st) && (bonded_power st <? 2 ^ 63).
+Definition rates_in_range (st : state) : bool :=
+  forallb (fun a => forallb (fun t => in_range (snd t)) (a_tuples a)) (votes st).
 Definition domain (p : params) (st : state) (h : Z) : bool :=
-  threshold_ok p (bonded_power st) &&
-  forallb (fun a => forallb (fun t => Z.abs (snd t) <=? SAFE_RATE) (a_tuples a)) (votes st) &&
-  forallb (fun r => (0 <=? r_created r) && (r_created r + p_expiration p <? UINT64)) (rates st) &&
-  (0 <=? p_expiration p) && (0 <=? p_reward_band p) && (p_reward_band p <=? PREC).
+  params_valid p && bonded_ok st && rates_in_range st.
 
 Definition P_update (p : params) (st : state) (h : Z) (obs : outcome) : Prop :=
   exists rs evs, obs = Done rs evs /\
